@@ -432,6 +432,22 @@ def seeds():
         ['save', [], [['d', ['attr', N('C'), 'd']], ['v', ['attr', N('C'), 'v']]]]])
     ex([['def', 'f', ['x'], ['walrus', 'a', N('x')]], ['assign', 'r', ['call', N('f'), [['int', 5]]]], ['save', ['r', 'a'], []]])
     ex([['save', ['a'], [['a', ['int', 5]], ['zz', ['int', 1]]]]])
+    # a second pyimport step re-binds an imported name: reads before and after, at every depth
+    Q = 'c14pkg_seed02'
+    out.append({'kind': 'eval', 'heap': [[1, 2]], 'ctx': [['a', 1], ['lst', {'ref': 0}]], 'pkg': Q,
+                'imports': [['from', f'{Q}.sub', 'mod', 'm'], ['importas', f'{Q}.other', 'm']],
+                'exprs': [['attr', N('m'), 'CONST'], ['attr', N('m'), 'NAME'], ['lam', [], ['attr', N('m'), 'NAME'], []],
+                          ['comp', ['attr', N('m'), 'NAME'], [['i', N('lst')]]]],
+                'steps': [['import', [['from', f'{Q}.sub', 'mod', 'm']]], ['eval', ['attr', N('m'), 'CONST']],
+                          ['import', [['importas', f'{Q}.other', 'm']]], ['eval', ['attr', N('m'), 'NAME']],
+                          ['eval', ['lam', [], ['attr', N('m'), 'NAME'], []]],
+                          ['eval', ['comp', ['attr', N('m'), 'NAME'], [['i', N('lst')]]]]]})
+    out.append({'kind': 'eval', 'heap': [[1, 2]], 'ctx': [['a', 1], ['lst', {'ref': 0}]],
+                'imports': [['from', 'math', 'gcd', 'g'], ['importas', 'math', 'g']],
+                'exprs': [['call', N('g'), [['int', 4], ['int', 6]]], ['call', ['attr', N('g'), 'gcd'], [['int', 4], ['int', 6]]], N('g')],
+                'steps': [['import', [['from', 'math', 'gcd', 'g']]], ['eval', ['call', N('g'), [['int', 4], ['int', 6]]]],
+                          ['import', [['importas', 'math', 'g']]],
+                          ['eval', ['call', ['attr', N('g'), 'gcd'], [['int', 4], ['int', 6]]]], ['eval', N('g')]]})
     # whatever a keyword of save(...) is called, it arrives in context
     ex([['save', [], [['namespace', ['str', 'prod-ns']]]]])
     ex([['assign', 'replicas', ['int', 3]], ['save', ['replicas'], [['context', ['int', 7]], ['key', ['str', 'v']]]]])
@@ -474,7 +490,87 @@ def mentions_pkg(stmts, P):
     return any(isinstance(x, str) and (x == P or x.startswith(P + '.')) for s in stmts for x in s[1:])
 
 
+def rebinding_pairs(P):
+    """pairs of import statements that bind the SAME name to different objects"""
+    return [
+        ([['importas', f'{P}.sub.mod', 'x']], [['from', P, 'other', 'x']]),
+        ([['from', f'{P}.sub', 'mod', 'm']], [['importas', f'{P}.other', 'm']]),
+        ([['import', P]], [['from', f'{P}.sub', 'mod', P]]),
+        ([['from', f'{P}.sub', 'mod', P]], [['import', f'{P}.other']]),
+        ([['from', f'{P}.sub.mod', 'CONST', 'v']], [['from', f'{P}.sub.mod', 'WORD', 'v']]),
+        ([['from', 'math', 'gcd', 'g']], [['importas', 'math', 'g']]),
+        ([['importas', 'urllib.parse', 'u']], [['importas', 'os.path', 'u']]),
+        ([['from', 'c14_mod', 'K', 'v']], [['from', 'c14_mod', 'S', 'v']]),
+        ([['from', 'xml.dom', 'minidom', 'xml']], [['import', 'xml.dom.minidom']]),
+        ([['from', 'os', 'path', 'p']], [['from', f'{P}.sub', 'SUBC', 'p']]),
+    ]
+
+
+def read_forms(rng, g, name, t):
+    """reads of an imported name: bare, through a lambda, in a comprehension, and down to a constant"""
+    outs = [['name', name], ['lam', [], ['name', name], []], ['comp', ['name', name], [['i', ['list', [['int', 0]]]]]]]
+    if isinstance(t, str) and t.startswith('mod:'):
+        for chain, ct in g.sim.chains(t[4:]):
+            e = ['name', name]
+            for a in chain:
+                e = ['attr', e, a]
+            outs += [e, ['lam', ['k'], e, [['int', 0]]], ['comp', e, [['i', ['name', 'lst']]]]]
+    return rng.choice(outs)
+
+
+def gen_session_case(rng):
+    """two or three pyimport steps on one Context, re-binding a name, with !py reads between and after"""
+    heap, ctx, types = gen_context(rng)
+    P = new_pkg(rng)
+    sim = ModSim(P)
+    first, second = rng.choice(rebinding_pairs(P))
+    if rng.random() < 0.3:
+        first, second = second, first
+    forms = import_forms(P)
+    blocks = [list(map(list, first)), list(map(list, second))]
+    if rng.random() < 0.35:
+        blocks.append(list(map(list, rng.choice([first, second]))))       # bind it back / again
+    for b in blocks:
+        if rng.random() < 0.4:
+            b.insert(rng.randrange(len(b) + 1), list(rng.choice(forms[8:])))
+    genv = {}
+    g = Gen(rng, genv, sim=sim)
+    steps, exprs, imports = [], [], []
+    for b in blocks:
+        steps.append(['import', b])
+        imports += b
+        for st in b:
+            k, t = sim.bind(st)
+            if k not in types:
+                genv[k] = t
+        for k, t in types.items():
+            genv[k] = t
+        name = L_binding(b)
+        for _ in range(rng.choice([0, 1, 1, 2])):
+            e = read_forms(rng, g, name, genv.get(name)) if rng.random() < 0.7 else \
+                g.expr('any', rng.choice([1, 2, 3]), Scope())
+            steps.append(['eval', e])
+            exprs.append(e)
+    if not exprs:
+        e = read_forms(rng, g, L_binding(blocks[-1]), genv.get(L_binding(blocks[-1])))
+        steps.append(['eval', e])
+        exprs.append(e)
+    case = {'kind': 'eval', 'heap': heap, 'ctx': ctx, 'imports': imports, 'exprs': exprs, 'steps': steps}
+    if mentions_pkg(imports, P):
+        case['pkg'] = P
+    return case
+
+
+def L_binding(block):
+    import c14_lang as L
+    return L.stmt_binding_name(block[0]) if len(block) == 1 else \
+        [L.stmt_binding_name(s) for s in block if L.stmt_binding_name(s) in ('x', 'm', 'v', 'g', 'u', 'p', 'xml')
+         or L.stmt_binding_name(s).startswith('c14pkg_')][0]
+
+
 def gen_eval_case(rng):
+    if rng.random() < 0.18:
+        return gen_session_case(rng)
     heap, ctx, types = gen_context(rng)
     P = new_pkg(rng)
     sim = ModSim(P)
